@@ -178,43 +178,73 @@ def run_options(work):
 
 
 def run_history(work):
-    """C08 item 4: answers of one ZoneSpecifier after random year sequences vs a fresh instance."""
+    """C08 item 4: answers of one ZoneSpecifier after random sequences of instants -- inside the compiled range, at its
+    edges and far outside it (where a cache fill fails) -- vs a fresh instance asked only the one question. A failed
+    query is an answer too: the fresh instance failing and the used one answering (or the reverse) is a difference;
+    the exception type is not compared."""
     from zonedb.zone_specifier import ZoneSpecifier
     out = {"witnesses": [], "counters": {}, "samples": []}
     c = out["counters"]
     rng = random.Random(work.get("seed", 0))
     lo, hi = year_start(work["start_year"]), year_start(work["until_year"])
+    far_years = [1, 2, 1800, 1872, 1970, 1990, work["start_year"] - 2, work["start_year"] - 1, work["until_year"], work["until_year"] + 1,
+                 2100, 2127, 5000, 9998, 9999]
+
+    def ask_seconds(z, t):
+        try:
+            return ("ok", tuple(z.get_timezone_info_for_seconds(t)))
+        except Exception:  # noqa
+            return ("failed",)
+
+    def ask_local(z, l):
+        try:
+            r = z.get_timezone_info_for_datetime(l)
+            return ("ok", tuple(r) if r else None)
+        except Exception:  # noqa
+            return ("failed",)
+
     for name, zi in work["zone_infos"].items():
         zs = ZoneSpecifier(zi)
         hist = []
         for step in range(work.get("steps", 60)):
             t = rng.randrange(lo, hi)
-            if rng.random() < 0.3 and hist:
-                t = hist[rng.randrange(len(hist))]      # revisit
-            if rng.random() < 0.2:
+            u = rng.random()
+            if u < 0.3 and hist:
+                t = hist[rng.randrange(len(hist))]      # revisit (also the immediate repeat of a failed query)
+                if rng.random() < 0.4:
+                    t = hist[-1]
+            elif u < 0.5:
                 y = rng.randrange(work["start_year"], work["until_year"])
                 t = year_start(y) + rng.choice([-1, 0, 1, 86399, 86400])
                 t = min(max(t, lo), hi - 1)
+            elif u < 0.62:
+                y = rng.choice(far_years)
+                t = (dt.datetime(y, rng.choice((1, 6, 12)), rng.choice((1, 15, 28))) - dt.datetime(2000, 1, 1)).days * 86400 + rng.randrange(86400)
+                c["far_queries"] = c.get("far_queries", 0) + 1
             hist.append(t)
             c["history_steps"] = c.get("history_steps", 0) + 1
-            try:
-                got = tuple(zs.get_timezone_info_for_seconds(t))
-                fresh = tuple(ZoneSpecifier(zi).get_timezone_info_for_seconds(t))
-                l = dt.datetime(2000, 1, 1) + dt.timedelta(seconds=t)
-                if work["start_year"] < l.year < work["until_year"] - 1:
-                    r1 = zs.get_timezone_info_for_datetime(l)
-                    r2 = ZoneSpecifier(zi).get_timezone_info_for_datetime(l)
-                    if (tuple(r1) if r1 else None) != (tuple(r2) if r2 else None):
-                        out["witnesses"].append({"key": "c08:python-answer-depends-on-history", "what": "ZoneSpecifier local-time answer differs from a fresh instance",
-                                                 "zone": name, "history": hist[-6:], "got": r1, "fresh": r2})
-                        break
-            except BaseException as e:  # noqa
-                out["witnesses"].append({"key": "c08:python-raises", "what": "ZoneSpecifier raised in a history", "zone": name,
-                                         "history": hist[-6:], "error": repr(e)[:300]})
-                break
+            got = ask_seconds(zs, t)
+            fresh = ask_seconds(ZoneSpecifier(zi), t)
+            if fresh[0] == "failed":
+                c["fresh_failed"] = c.get("fresh_failed", 0) + 1
             if got != fresh:
                 out["witnesses"].append({"key": "c08:python-answer-depends-on-history", "what": "ZoneSpecifier answer differs from a fresh instance",
-                                         "zone": name, "history": hist[-6:], "got": list(got), "fresh": list(fresh)})
+                                         "zone": name, "history": hist[-6:], "got": list(got), "fresh": list(fresh),
+                                         "repeat_of_failed_query": len(hist) > 1 and hist[-2] == t and fresh[0] == "failed"})
+                break
+            try:
+                l = dt.datetime(2000, 1, 1) + dt.timedelta(seconds=t)
+            except OverflowError:
+                continue
+            if lo <= t < hi and not (work["start_year"] < l.year < work["until_year"] - 1):
+                continue        # local-time answers in the first / last compiled year depend on the neighbouring year's data: not asked
+            r1 = ask_local(zs, l)
+            r2 = ask_local(ZoneSpecifier(zi), l)
+            c["history_local_steps"] = c.get("history_local_steps", 0) + 1
+            if r1 != r2:
+                out["witnesses"].append({"key": "c08:python-answer-depends-on-history", "what": "ZoneSpecifier local-time answer differs from a fresh instance",
+                                         "zone": name, "history": hist[-6:], "got": list(r1), "fresh": list(r2),
+                                         "repeat_of_failed_query": len(hist) > 1 and hist[-2] == t and r2[0] == "failed"})
                 break
         c["zones"] = c.get("zones", 0) + 1
     return out
